@@ -207,3 +207,49 @@ Proof.
   intros cfg M needles Hbin Hb Ha Hs s Hf Hn.
   rewrite <- (core_plan_lite cfg M needles s Hn). apply core_plan_eq_core_proof; assumption.
 Qed.
+
+(* ---- the same, run against run: the C14 slice run over lite_plan with the always-continuing sink and
+        detection off delivers the events of the Core model's SliceByLine::run ---- *)
+Lemma plan_calls_no_break sc fi pt n rs : Forall (fun c => c_break c = false) (fst (plan_calls sc fi pt n rs)).
+Proof.
+  induction rs as [|[[s e] l] rs IH]; [constructor|].
+  cbn [plan_calls]. destruct (plan_calls sc fi pt n rs) as [rest nxt]. cbn [fst] in IH.
+  destruct (sc l); cbn [fst]; [constructor; [reflexivity|exact IH]|].
+  destruct pt; cbn [app]; [constructor; [reflexivity|exact IH]|exact IH].
+Qed.
+
+Lemma run_calls_K buf : forall cs tr, Forall (fun c => c_break c = false) cs ->
+  run_calls sink_K LineBufferBin.BNone true 0 buf cs None (tt, tr) =
+  (None, None, (tt, rev (map (call_event 0 buf) cs) ++ tr)).
+Proof.
+  induction cs as [|c cs IH]; intros tr H; [reflexivity|].
+  inversion H as [|? ? Hc Hcs]; subst. cbn [run_calls map rev].
+  assert (E : sink_call sink_K LineBufferBin.BNone true 0 buf c None (tt, tr) = (true, None, (tt, call_event 0 buf c :: tr))).
+  { unfold sink_call, guard, BinaryDetect.detect_binary, emit_break. rewrite Hc.
+    destruct (negb (c_matched c) && match c_kind c with KBefore => true | _ => false end); cbn;
+      destruct (c_matched c); reflexivity. }
+  rewrite E. rewrite IH by exact Hcs. rewrite <- app_assoc. reflexivity.
+Qed.
+
+Lemma slice_run_K cap buf cs n : Forall (fun c => c_break c = false) cs ->
+  rev (snd (slice_run sink_K LineBufferBin.BNone cap buf cs n (tt, []))) =
+  BinaryDetect.EBegin :: map (call_event 0 buf) cs ++ [BinaryDetect.EFinish n None].
+Proof.
+  intro H. unfold slice_run. cbn [BinaryDetect.emit sink_K fst snd BinaryDetect.detect_binary].
+  rewrite run_calls_K by exact H. cbn [BinaryDetect.byte_count fst snd rev].
+  rewrite rev_app_distr, rev_involutive. reflexivity.
+Qed.
+
+Theorem slice_run_lite_eq_core_proof :
+  forall (cfg : config) (M : matcher) (needles : list bytes) (cap : nat),
+    c_binary cfg = SearcherCore.BNone -> c_before cfg = 0 -> c_after cfg = 0 -> c_stop_on_nonmatch cfg = false ->
+    forall s : bytes, find_spec cfg M s -> needle_matcher cfg M needles s ->
+    result14 (slice_by_line_run cfg M K s) =
+    Some (rev (snd (slice_run sink_K LineBufferBin.BNone cap s
+                      (lite_plan needles (c_invert cfg) (c_passthru cfg) (lt_byte (c_lt cfg)) s) (length s) (tt, [])))).
+Proof.
+  intros cfg M needles cap Hbin Hb Ha Hs s Hf Hn.
+  rewrite slice_run_K.
+  - apply lite_plan_eq_core_proof; assumption.
+  - unfold lite_plan. rewrite lite_calls_plan. apply plan_calls_no_break.
+Qed.
